@@ -28,6 +28,14 @@ pub fn menu_huge(l: L) -> Vec<(String, usize)> {
     vec![(s.c.to_string(), (1 << 31) + 1), (format!("{0}{0}", s.v), (1 << 31) + 2), (format!("{} {}", s.v, s.c), 1 << 40), (format!("{0}{1}{0} {1}", s.v, s.c), 1 << 62)]
 }
 
+/// ordinary ratings next to ratings in the upper half of the usize range (a rating is a `usize`; the statement
+/// quantifies over all stores)
+pub fn menu_beyond(l: L) -> Vec<(String, usize)> {
+    let s = sym(l);
+    let half = 1usize << (usize::BITS - 1);
+    vec![(s.c.to_string(), half + 100), (format!("{0}{0}", s.v), 50), (format!("{} {}", s.v, s.c), 200), (format!("{0}{1}{0} {1}", s.v, s.c), usize::MAX), (format!("{0}{1}", s.v, s.c), half - 1), (format!("{1}{0}", s.v, s.c), half)]
+}
+
 pub fn menu10(l: L) -> Vec<(String, usize)> {
     // equal ratings; raw order and normalised order disagree ('B' < 'a' raw, 'b' > 'a' normalised; an accented
     // letter of the language sorts after 'f' raw and before it normalised)
@@ -67,6 +75,9 @@ impl C12 {
             sets.push((l, "stores<=3 over 10 pairs (raw vs normalised order)".to_string(), menu10(l), tier.pick(3, 4), false));
             sets.push((l, "stores<=4 over 4 titles, pairwise distinct ratings".to_string(), menu4(l), tier.pick(4, 5), true));
             sets.push((l, "stores<=4 over 4 pairs with ratings 2^31+1 .. 2^62".to_string(), menu_huge(l), 4, false));
+            if matches!(l, L::None | L::En | L::Ru) || tier == Tier::Thorough {
+                sets.push((l, "stores<=4 over 6 pairs: ratings 50 / 200 next to 2^63-1, 2^63, 2^63+100 and usize::MAX".to_string(), menu_beyond(l), 4, false));
+            }
         }
         C12 { tier, sets }
     }
